@@ -75,6 +75,70 @@ def Db.wfB (db : Db) : Bool :=
   db.users.all wfUserB && db.channels.all (fun p => consistentB p.2.caps) &&
     consistentB db.defaults && consistentB db.registered
 
+/-! ### edit histories -/
+
+/-- the edits of the capability-relevant state (what the Admin/Channel/User/Config commands and
+the `users.conf`/`channels.conf` loaders do to it) -/
+inductive Edit
+  | newUser (id : Nat) (name : Str)
+  | delUser (id : Nat)
+  | userAdd (id : Nat) (cap : Str)
+  | userRemove (id : Nat) (cap : Str)
+  | userFlags (id : Nat) (ignore secure : Bool)
+  | userHostmasks (id : Nat) (masks : List Str)
+  | userAuth (id : Nat) (auth : List (Int × Str))
+  | chanAdd (ch cap : Str)
+  | chanRemove (ch cap : Str)
+  | chanDefault (ch : Str) (b : Bool)
+  | setDefaults (v : List Str)
+  | setRegistered (v : List Str)
+  | setFlag (b : Bool)
+  | setTimeout (t : Int)
+deriving Repr
+
+/-- capability strings carried by an edit -/
+def Edit.caps : Edit → List Str
+  | .userAdd _ c => [c]
+  | .userRemove _ c => [c]
+  | .chanAdd _ c => [c]
+  | .chanRemove _ c => [c]
+  | .setDefaults v => v
+  | .setRegistered v => v
+  | _ => []
+
+def Db.modifyUser (db : Db) (id : Nat) (f : User → R User) : R Db :=
+  match db.getUserById id with
+  | none => .error .key
+  | some u =>
+    match f u with
+    | .error e => .error e
+    | .ok u' => .ok (db.putUser { u' with id := u.id })
+
+def Db.modifyChannel (db : Db) (ch : Str) (f : Channel → R Channel) : R Db :=
+  match f (db.getChannel ch) with
+  | .error e => .error e
+  | .ok c => .ok (db.setChannel ch c)
+
+def Db.applyEdit (db : Db) : Edit → R Db
+  | .newUser id name => .ok (db.putUser { id := id, name := name })
+  | .delUser id => .ok { db with users := db.users.filter (fun u => u.id != id) }
+  | .userAdd id cap => db.modifyUser id (fun u => u.addCapability cap)
+  | .userRemove id cap => db.modifyUser id (fun u => u.removeCapability cap)
+  | .userFlags id ig se => db.modifyUser id (fun u => .ok { u with ignore := ig, secure := se })
+  | .userHostmasks id ms => db.modifyUser id (fun u => .ok { u with hostmasks := ms })
+  | .userAuth id a => db.modifyUser id (fun u => .ok { u with auth := a })
+  | .chanAdd ch cap => db.modifyChannel ch (fun c => c.addCapability cap)
+  | .chanRemove ch cap => db.modifyChannel ch (fun c => c.removeCapability cap)
+  | .chanDefault ch b => db.modifyChannel ch (fun c => .ok (c.setDefaultCapability b))
+  | .setDefaults v => db.setDefaults v
+  | .setRegistered v => db.setRegistered v
+  | .setFlag b => .ok { db with defaultFlag := b }
+  | .setTimeout t => .ok { db with timeout := t }
+
+/-- a history: an edit that raises leaves the state as it was -/
+def Db.applyEdits (db : Db) (es : List Edit) : Db :=
+  es.foldl (fun d e => match d.applyEdit e with | .ok d' => d' | .error _ => d) db
+
 /-! ### the decision list -/
 
 namespace Spec
